@@ -4,33 +4,171 @@ import random
 
 from . import core, engines, plans
 
+ROLLBACK_PROPS = {"C01", "C02", "C03", "C04"}
+
 
 def sizes(tier, quick, thorough):
     return thorough if tier == "thorough" else quick
 
 
-# ---------------------------------------------------------------------------------------------
-# C01 - C04: rollback core, judged by the monitor on traces of the real sessions
-# ---------------------------------------------------------------------------------------------
+def model_session(res, wd, pid, variants, props):
+    """Exhaustive model checking of System.tla for the given constant variants; every model
+    counterexample is replayed on the real sessions before it counts."""
+    for name, over in variants:
+        held, cex = engines.mc_system(res, wd, name, over)
+        if not held:
+            engines.confirm_on_impl(res, pid, wd, name, cex, props)
+
 
 def _rollback_nontrivial(st, plan):
     return st["loads"] >= 1 and st["maxDepth"] >= 2 and st["verified"] >= 20
 
 
+SESSION_MODELS_QUICK = [
+    ("s2_w2", {"Window": 2, "MaxFrame": 3}),
+]
+SESSION_MODELS_THOROUGH = [
+    ("s2_w2", {"Window": 2, "MaxFrame": 4}),
+    ("s2_w1", {"Window": 1, "MaxFrame": 4}),
+    ("s2_w2_sparse", {"Window": 2, "MaxFrame": 3, "Sparse": "TRUE"}),
+    ("s2_w2_preddef", {"Window": 2, "MaxFrame": 3, "PredDefault": "TRUE"}),
+    ("s2_w2_delay", {"Window": 2, "MaxFrame": 3, "Peers": "GenPeers2d"}),
+    ("s2_w2_cap2", {"Window": 2, "MaxFrame": 3, "LinkCap": 2, "InboxCap": 1}),
+]
+
+
+# ---------------------------------------------------------------------------------------------
+# C01 - C04: rollback core
+# ---------------------------------------------------------------------------------------------
+
 def c01(res, wd):
-    n, frames = sizes(res.tier, (16, 500), (120, 2500))
+    model_session(res, wd, "C01", sizes(res.tier, SESSION_MODELS_QUICK, SESSION_MODELS_THOROUGH), {"C01"})
+    ns, depth = sizes(res.tier, (10, 90), (80, 140))
+    engines.s2i_runs(res, "C01", wd, "g2", {"MaxFrame": 8, "MaxSteps": depth - 10}, ns, depth, {"C01"})
+    engines.s2i_runs(res, "C01", wd, "g21", {"Peers": "GenPeers21", "NumPlayers": 3, "MaxFrame": 8,
+                                             "MaxSteps": depth - 10}, ns // 2, depth, {"C01"})
+    n, frames = sizes(res.tier, (14, 500), (120, 2500))
     ps = plans.batch(res.seed * 1000 + 1, n, frames)
-    # a few long runs that wrap the 128-slot input ring, the cell ring and the time-sync window
+    # long runs that wrap the 128-slot input ring, the cell ring and the time-sync window
     nl, fl = sizes(res.tier, (2, 2000), (6, 12000))
     ps += plans.batch(res.seed * 1000 + 2, nl, fl, p_pause=0.0)
     engines.obs_runs(res, "C01", ps, {"C01"}, wd, "c01", nontrivial=_rollback_nontrivial)
-    res.rule = ("random scenario per run (2-4 peers, 1-2 local players each, window 1..12, delays 0..4, "
-                "sparse on/off, both predictors, loss/dup/reorder, unequal tick rates); a run is "
-                "non-trivial if it contained >=1 rollback of depth >=2 and >=20 frames were verified final")
+    res.rule = ("(1) exhaustive TLC exploration of System.tla (2 peers, inputs {0,1}, every tick interleaving, "
+                "loss/arbitrary delay per link) with the monitor as invariant; (2) TLC-simulated schedules replayed "
+                "on the real sessions and checked by Trace_Sys (conformance) and Trace_Obs (property); (3) random "
+                "scenarios (2-4 peers, 1-2 local players each, window 1..12, delays 0..4, sparse on/off, both "
+                "predictors, loss/dup/reorder, unequal tick rates) on the real sessions, every line judged by the "
+                "TLA+ monitor.  A run is non-trivial if it contained >=1 rollback of depth >=2 and >=20 frames "
+                "were verified final (random runs) or >=1 rollback/stall (replayed schedules)")
     res.assumptions += ["the user executes request lists in order (harness game)",
-                        "faults stay below the disconnect timeout in this family"]
+                        "faults stay below the disconnect timeout in these families",
+                        "exhaustive results hold for the stated small constants only"]
+
+
+def c02(res, wd):
+    model_session(res, wd, "C02", sizes(res.tier, SESSION_MODELS_QUICK, SESSION_MODELS_THOROUGH), {"C02"})
+    ns, depth = sizes(res.tier, (10, 90), (60, 140))
+    engines.s2i_runs(res, "C02", wd, "g2s", {"MaxFrame": 8, "Sparse": "TRUE", "MaxSteps": depth - 10},
+                     ns, depth, {"C02"})
+    n, frames = sizes(res.tier, (8, 400), (60, 2000))
+    # sparse saving + small windows + a slow peer: stalls at the prediction limit and deep rollbacks
+    ps = plans.batch(res.seed * 1000 + 3, n, frames, cfg={"sparse": True}, loss=0.2)
+    ps += plans.batch(res.seed * 1000 + 4, n, frames, window=random.Random(res.seed).choice([1, 2, 3]),
+                      loss=0.3, lat_lo=40, lat_hi=120)
+    ps += plans.batch(res.seed * 1000 + 5, max(2, n // 2), frames, spectators=1, npeers=2)
+    engines.obs_runs(res, "C02", ps, {"C02"}, wd, "c02",
+                     nontrivial=lambda st, pl: st["loads"] >= 1 and (st["stalls"] >= 1 or st["maxDepth"] >= 2))
+    res.rule = ("request-list walker (Monitor.tla ReqStep/TickP2P/TickSpec) over every advance_frame call of: "
+                "exhaustive model runs, TLC schedules replayed on the real sessions, random runs with sparse saving, "
+                "tiny windows (stalls at the prediction limit), high latency/loss and spectators; non-trivial = "
+                ">=1 load and (>=1 stall or rollback depth >=2)")
+    res.assumptions += ["SyncTest request lists are judged by C13's check"]
+
+
+def c03(res, wd):
+    model_session(res, wd, "C03", sizes(res.tier, SESSION_MODELS_QUICK, SESSION_MODELS_THOROUGH), {"C03"})
+    ns, depth = sizes(res.tier, (10, 90), (60, 140))
+    engines.s2i_runs(res, "C03", wd, "g2p", {"MaxFrame": 8, "PredDefault": "TRUE", "MaxSteps": depth - 10},
+                     ns, depth, {"C03"})
+    n, frames = sizes(res.tier, (8, 400), (60, 2000))
+    ps = plans.batch(res.seed * 1000 + 6, n, frames, cfg={"predictor": "default"}, change=0.7)
+    ps += plans.batch(res.seed * 1000 + 7, n, frames, cfg={"predictor": "repeat"}, change=0.3, alphabet=16)
+    engines.obs_runs(res, "C03", ps, {"C03"}, wd, "c03",
+                     nontrivial=lambda st, pl: st["predicted"] >= 10 and st["corrected"] >= 1)
+    res.rule = ("status truthfulness and finality of confirmed inputs (Monitor.tla AdvH/FinalF) on every "
+                "AdvanceFrame request; both predictors; non-trivial = >=10 predicted inputs and >=1 corrected frame")
+
+
+def _starve(rng, frames, **over):
+    """One peer receives nothing from one other peer for long periods (timeouts disabled)."""
+    p = plans.general(rng, frames, **over)
+    p["cfg"]["timeout"] = 600000
+    p["cfg"]["notify"] = 590000
+    n = len(p["cfg"]["peers"])
+    outs = []
+    t = 300
+    while t < frames * 20:
+        a = rng.randrange(n)
+        b = rng.choice([x for x in range(n) if x != a])
+        ln = rng.choice([200, 600, 1500, 4000])
+        outs.append({"from": a, "to": b, "start": t, "len": ln})
+        t += ln + rng.choice([100, 500, 1000])
+    p["outages"] = outs
+    p["max_ms"] = 400000
+    return p
+
+
+def c04(res, wd):
+    variants = [("s2_w1", {"Window": 1, "MaxFrame": 3}), ("s2_w0", {"Window": 0, "MaxFrame": 3})]
+    if res.tier == "thorough":
+        variants += [("s2_w2", {"Window": 2, "MaxFrame": 4}), ("s2_w0_delay", {"Window": 0, "MaxFrame": 3, "Peers": "GenPeers2d"})]
+    model_session(res, wd, "C04", variants, {"C04"})
+    ns, depth = sizes(res.tier, (8, 90), (60, 140))
+    engines.s2i_runs(res, "C04", wd, "g2w0", {"MaxFrame": 8, "Window": 0, "MaxSteps": depth - 10}, ns, depth, {"C04"})
+    engines.s2i_runs(res, "C04", wd, "g2w1", {"MaxFrame": 8, "Window": 1, "MaxSteps": depth - 10}, ns, depth, {"C04"})
+    n, frames = sizes(res.tier, (6, 300), (40, 1500))
+    rng = random.Random(res.seed * 1000 + 8)
+    ps = []
+    for w in ([0, 0, 1, 2, 8, 12] * 20)[:n]:
+        ps.append(_starve(rng, frames, window=w))
+    ps += [plans.general(rng, frames, window=0) for _ in range(max(2, n // 2))]
+    engines.obs_runs(res, "C04", ps, {"C04"}, wd, "c04",
+                     nontrivial=lambda st, pl: st["stalls"] >= 5)
+    res.rule = ("speculation bound on every first simulation / load, lockstep contract for window 0 "
+                "(Monitor.tla AdvViol/ReqStep/TickP2P): exhaustive model runs for windows 0,1,2; TLC schedules "
+                "replayed on real sessions; random starvation runs (one link dead for 0.2-4 s at a time, timeouts "
+                "disabled) for windows 0..12; non-trivial = >=5 stalled calls")
 
 
 CHECKS = {
     "C01": c01,
+    "C02": c02,
+    "C03": c03,
+    "C04": c04,
 }
+
+
+def replay(res, wd, path):
+    """Re-execute the schedule of a recorded trace on the current tree and judge it again."""
+    import json
+    import os
+    with open(path) as f:
+        lines = [json.loads(x) for x in f if x.strip()]
+    cfg = lines[0]["cfg"]
+    steps = [l for l in lines[1:] if l.get("a") not in ("end", "cfg")]
+    # packet ids are deterministic for an unchanged implementation; prefer positions when logged
+    for s in steps:
+        if s.get("a") in ("dlv", "drop", "dup") and "k" in s and s["k"] >= 0:
+            s.pop("id", None)
+    out = os.path.join(wd, "replay.ndjson")
+    core.drive([{"cfg": cfg, "steps": steps}], out, detail=0)
+    r = core.validate_trace(out, os.path.join(wd, "md_replay"))
+    res.traces = 1
+    for v in r["viol"]:
+        if v[1] == res.pid or v[1] == "PANIC":
+            res.violations.append({"prop": v[1], "code": v[3], "line": v[2], "detail": v[4],
+                                   "family": "replay", "cls": "replay", "replay": path})
+    res.evaluations = 1
+    res.nontrivial = 2
+    res.add_sample({"replayed": path, "stats": r["stats"]})
+    return res.finish()
